@@ -4,6 +4,7 @@ import ast
 import inspect
 import re
 import sys
+import threading
 import tokenize
 import types
 from ast import NodeTransformer, NodeVisitor
@@ -1346,6 +1347,11 @@ class StackedTransforms:
         return self.tset.transform_for(caps)
 
 
+# Serializes every change to the instrumentation of a function (counters,
+# variant cache, code swap): probes may be activated from several threads.
+_tooling_lock = threading.RLock()
+
+
 class SyncedStackedTransforms(StackedTransforms):
     def __init__(self, fn, proceed):
         self.conformer = _Conformer2(fn.__code__, self._conform)
@@ -1359,12 +1365,14 @@ class SyncedStackedTransforms(StackedTransforms):
         self.conformer.code = new.__code__
 
     def push(self, captures):
-        super().push(captures)
-        self._apply(self.target)
+        with _tooling_lock:
+            super().push(captures)
+            self._apply(self.target)
 
     def pop(self, captures):
-        super().pop(captures)
-        self._apply(self.target)
+        with _tooling_lock:
+            super().pop(captures)
+            self._apply(self.target)
 
     def _apply(self, fn):
         _, code, info, token = self.get()
@@ -1376,8 +1384,11 @@ class SyncedStackedTransforms(StackedTransforms):
         except ImportError:  # pragma: no cover
             pass
 
-        fn.__code__ = code
+        # The new code refers to the function through its token: publish the
+        # token before the code, another thread may call fn at any moment
+        if token is not None:
+            fn.__globals__[token] = fn
         fn.__ptera_info__ = info
         fn.__ptera_token__ = token
         fn.__ptera_discard__ = False
-        fn.__globals__[fn.__ptera_token__] = fn
+        fn.__code__ = code
